@@ -62,6 +62,7 @@ vf_i32 VFN(vf_id2)(vf_i32 mi, vf_i32 r);
 void VFN(vf_execq2)(void);
 vf_i32 VFN(vf_qsize2)(void);
 void VFN(vf_reuse_moved_from)(void);
+vf_i32 VFN(vf_cnt)(vf_i32 which, vf_i32 si);
 #ifdef VF_TWO_MACHINES
 #define VF_EV(k, p) (vf_which ? VFN(vf_ev2)(k, p) : VFN(vf_ev)(k, p))
 #define VF_EXECQ() do { if (vf_which) VFN(vf_execq2)(); else VFN(vf_execq)(); } while (0)
